@@ -10,9 +10,15 @@ __getstate__/__setstate__ and save_hdf5/from_hdf5 tables)
   (attrs sorted/bunched/qconj, chinfo, legs, slices/charges) == Model/PipeReinit.v:pipe_save; the pipe rebuilt by
   LegPipe.from_hdf5 and the unpickled pipe (charges, slices, q_map, q_map_slices, _perm, _strides, sorted, bunched, legs,
   qconj) == pipe_load; the constructed pipe == pipe_construct (Model/PipeReinitCheck.v:check_pipe_reinit, vm_compute)
-+ oracle: independent deep comparison original <-> loaded (types, values, dtypes, identity pattern both ways),
-  dense-level observations (to_ndarray, qflat, overlaps, MPO.is_equal) and test_sanity() of every loaded object,
++ oracle: independent deep comparison original <-> loaded (types, values, dtypes, identity pattern both ways; the
+  COMPLETE __dict__ of every instance: an attribute present before saving and absent after loading - or the reverse -
+  is a difference, only the *values* of the three declared lattice caches are not compared),
+  dense-level observations (to_ndarray, qflat, overlaps, MPO.is_equal), interface-level observations of every lattice
+  met anywhere in the object (N_sites, Ls, bc_MPS, boundary_conditions, order, segment_first_last read as the segment
+  simulations read it, mps2lat_idx / lat2mps_idx, mps_sites, position, pairs) and test_sanity() of every loaded object,
   for HDF5 in every LegCharge format, pickle and copy.deepcopy.
+  Segments are generated for every lattice class (lattice_segment:<class> x {finite 0..N-1, infinite enlarge=k,
+  defaults, first>0, first=0 and last<N-1}), for models (model_segment), MPS and MPO (first = 0 included).
 """
 import os
 import sys
@@ -422,7 +428,11 @@ def main(ctx):
                 # quick tier: the second variant of every model class skips hdf5:compact and deepcopy (the first has all five)
                 light = (not ctx.thorough()) and intens == 1 and name.startswith('model:') and v % 2 == 1
                 specs.append({'gen': name, 'args': {'variant': v} if gens[name] > 1 else {}, 'seed': ctx.seed * 1000 + rep * 97 + v,
-                              'methods': ['hdf5:blocks', 'hdf5:flat', 'pickle'] if light else METHODS, 'shape': rep == 0, 'max_nodes': ctx.pick(400, 600),
+                              'methods': ['hdf5:blocks', 'hdf5:flat', 'pickle'] if light else METHODS,
+                              # canonical heaps for the Coq comparison: first repetition; of the five segment modes of every
+                              # lattice class the quick tier sends two (the oracle sees all five)
+                              'shape': rep == 0 and (ctx.thorough() or not (name.startswith('lattice_segment:') and v >= 2)),
+                              'max_nodes': ctx.pick(400, 600),
                               'shape_methods': ctx.pick(['hdf5:blocks', 'pickle'], ['hdf5:blocks', 'hdf5:compact', 'pickle', 'deepcopy'])})
     rng.shuffle(specs)
     if replay is not None:
@@ -455,7 +465,7 @@ def main(ctx):
                 ctx.count('objects', [spec['gen'], spec['args'], spec['seed'], method], nontrivial=o.get('compared', 0) > 1,
                           sample={'gen': spec['gen'], 'args': spec['args'], 'method': method, 'root_class': x.get('root_class'),
                                   'values_compared': o.get('compared'), 'shared_references': o.get('shared'),
-                                  'test_sanity_calls': o.get('sanity_n')})
+                                  'test_sanity_calls': o.get('sanity_n'), 'lattices_observed': o.get('lattices')})
                 if 'runner_error' in o:
                     ctx.fail('correspondence', 'comparison crashed for %s/%s: %s' % (spec['gen'], method, o['runner_error'][-500:]), case)
                     continue
@@ -607,7 +617,8 @@ def main(ctx):
 
 
 RULE = ('objects: every generator of c17_gen.py (one per exporting class found by reflection, all variants: charge structures, leg styles, '
-        'pipes, tensors, all predefined sites, MPS finite/infinite/segment, MPO, all lattices, all models, terms, errors, configs, container zoo) '
+        'pipes, tensors, all predefined sites, MPS finite/infinite/segment, MPO, all lattices, segments of all lattices (first = 0: finite 0..N-1, '
+        'enlarge=k, defaults; first > 0; last < N-1), segment models / MPS / MPO, all models, terms, errors, configs, container zoo) '
         'x {hdf5 blocks/compact/flat, pickle, deepcopy}; non-trivial when more than one value was compared; distinct = (generator, variant, seed, method). '
         'graphs: random heaps of 1-10 containers (list/tuple/set/dict simple+general keys/instances) with sharing, self references and cycles x '
         '{hdf5, pickle, deepcopy}; non-trivial when more than one node is reachable.  reflection: one case per discovered class.  '
